@@ -75,7 +75,14 @@ def build(tier, seed):
         "Each method is executed on operands of enumerated dependency shape (concrete, distinct measurement ids; shared measurements are "
         "shared objects) with symbolic outcomes / scalars and uninterpreted processing functions; the closure the real code returns is "
         "called symbolically on a fresh outcome assignment and compared with the pointwise specification. Branch enumerations "
-        "(items / branches / __getitem__ / postselected_items) are executed concretely for n = 1..3 measurements.")
+        "(items / branches / __getitem__ / postselected_items) are executed concretely for n = 1..3 measurements.  "
+        "variance_transform (E1): the whole real body incl. the returned post-processing closure is executed on measurement sequences of enumerated "
+        "kinds; the closure is applied to one symbolic real per measured quantity of the executed tape and must return <O^2> - <O>^2 for every var(O).  "
+        "_postselection_postprocess (E1): real body on states of enumerated size with symbolic amplitudes and symbolic shot vectors; every binomial "
+        "draw is recorded and must be Binomial(s_i, <state|state>) once per shot-vector entry (hw-like / default), none in fill-shots mode.  "
+        "defer_measurements (E2): the real transform is run on real tapes with exact symbolic rotation angles; the circuit it returns is evaluated "
+        "exactly and compared, as Laurent polynomials, with an independent branch enumeration (reduced density matrix on the observed wires and "
+        "measurement-value statistics, unnormalised).")
     plan.trusted_base = ["vf/pyvc encoder (closures, varargs lambdas, star-calls, concrete comprehensions)", "z3 (EUF: equalities between "
                          "applications of uninterpreted processing functions)"]
     plan.assumptions = ["measurement ids are unique: two measurement objects are equal (==, hash) iff they carry the same id, and ids are totally ordered",
@@ -88,7 +95,13 @@ def build(tier, seed):
     plan.size_bounds = ["operands depending on 0..3 measurements: every dependency shape with at most 2 measurements per operand (all orders, all "
                         "sharing patterns) and selected shapes with 3; branch enumerations for n = 1..3 measurements (all postselection patterns "
                         "for n <= 2, selected for n = 3); outcomes, scalar operands and processing functions are symbolic"]
-    plan.unverified = ["deferred measurement, tree-traversal and one-shot execution of dynamic circuits (device semantics)", "postselection modes",
+    plan.unverified = ["tree-traversal execution itself (simulate_tree_mcm: branching, pruning, combination of branch results; only its variance_transform "
+                       "is under contract) and one-shot execution (dynamic_one_shot, gather_mcm, apply_mid_measure)",
+                       "statistical consistency of sampling (that the generators draw from the stated distributions)",
+                       "defer_measurements beyond the enumerated circuit shapes (more than 2 measurements, broadcasting, non-integer wire labels, "
+                       "sample / counts measurements of measurement-value lists); the device's execution of the deferred circuit",
+                       "_postselection_postprocess with a jax prng_key / abstract (traced) state; postselection in tree-traversal (prune_mcm_samples) and "
+                       "one-shot mode",
                        "the numerical semantics of the qp.math functions on arrays / tracers", "MeasurementValue.wires / map_wires / __hash__"]
 
     cell = {}
@@ -1158,8 +1171,8 @@ def add_postselection(plan, tier):
                 for rng_present in (False, True):
                     if nshots == 3 and (d != dims[0] or not mode_given):
                         continue
-                    if d == dims[-1] and d > 2 and rng_present and nshots is None:
-                        continue
+                    if d > 2 and ((rng_present and nshots != 1) or not mode_given):
+                        continue         # larger states: the rng / absent-keyword variants are covered with 2 components
                     params = {"state": state_t(d), "is_state_batched": T("const", False), "shots": shots_t(nshots), "rng": rng_t(rng_present),
                               "prng_key": NoneV}
                     km = {"rng": "rng", "prng_key": "prng_key"}
@@ -1502,6 +1515,7 @@ def add_defer_measurements(plan, tier, seed):
     """defer_measurements returns a circuit without mid-circuit measurements whose exact result is the branch-averaged result of the dynamic circuit
     (property: deferred measurement returns the exact branch-averaged result, with reset and postselection)"""
     from vf.symx.oblig import identity_obligation
+    import pennylane  # noqa: F401  pylint: disable=unused-import   (imported once, before the obligation workers are forked)
     names = ["a", "b", "c"]
     circuits = dm_circuits(tier)
     for label, (desc, term, kw) in circuits.items():
